@@ -140,7 +140,7 @@ func TestC04Concurrent(t *testing.T) {
 	run := vk.New("C04", "concurrent")
 	defer run.Finish()
 	all := evt.Drivers()
-	n := run.Scale(400, 12000)
+	n := run.Scale(400, 30000)
 	procs := []int{1, 2, 4, 16}
 	defer runtime.GOMAXPROCS(runtime.GOMAXPROCS(0))
 	for i := 0; i < n; i++ {
